@@ -95,6 +95,22 @@ def half_of(a):
     return a / 2
 
 
+def floordiv2(a, b):
+    return a // b
+
+
+def circle(a):
+    return math.pi * a
+
+
+def root(a):
+    return a**0.5
+
+
+def euler(a):
+    return math.e * a
+
+
 def untranslatable_loop(a):
     r = a
     for _ in range(2):
@@ -133,6 +149,10 @@ ARITY = {
     "nested_ma": 3,
     "one": 0,
     "half_of": 1,
+    "floordiv2": 2,
+    "circle": 1,
+    "root": 1,
+    "euler": 1,
     "untranslatable_loop": 1,
     "untranslatable_exp": 1,
     "untranslatable_aug": 1,
